@@ -1,4 +1,4 @@
 SPECIFICATION SpecAsWritten
-CONSTANT Big = FALSE
+CONSTANT Big = FALSE Wide = FALSE
 INVARIANTS IndexesAgree
 CHECK_DEADLOCK FALSE
